@@ -213,7 +213,8 @@ def race(job):
 
     th = threading.Thread(target=controller, daemon=True)
     th.start()
-    envA = _env({"LD_PRELOAD": CFG["shim"], "COPIA_SHIM_ROOTS": hub, "COPIA_SHIM_SOCK": sockp})
+    # (the shim's root list is ':'-separated and the hub directory's name contains colons: track the worker directory above it)
+    envA = _env({"LD_PRELOAD": CFG["shim"], "COPIA_SHIM_ROOTS": d, "COPIA_SHIM_SOCK": sockp})
     resA = {}
 
     def runA():
